@@ -2,10 +2,10 @@
 
 ENTRY = {'coq_dir': 'C15',
  'harness': 'c15',
- 'cases': {'quick': 1500, 'thorough': 30000},
+ 'cases': {'quick': 1500, 'thorough': 100000},
  'consts': ['REPLICATION_FACTOR', 'PARALLELISM_FACTOR', 'DEFAULT_PEER_TIMEOUT_SECS'],
  'nontrivial_min_trace': 30,
- 'rule': 'seven streams against the real QueryEngine: (1) N seeded random networks on <= 8 peers (who knows whom incl. self/local/duplicates, '
+ 'rule': 'eight streams against the real QueryEngine: (1) N seeded random networks on <= 8 peers (who knows whom incl. self/local/duplicates, '
          'failing peers, peers answering with the wrong message type, unsolicited and duplicate responses, send notifications, next_peer_action '
          'calls, events after the terminal action) with random reply schedules, one query per engine (find_node / put_record lookup / add_provider '
          'lookup / get_record / get_providers); (1b) N/3 cases with 2-4 CONCURRENT queries (same target key, mixed kinds) in one engine, events '
@@ -24,18 +24,41 @@ ENTRY = {'coq_dir': 'C15',
          "prop_ok re-judges the property text on the implementation's actions alone (per query): never local / never twice / alpha gate / no "
          'deadlock / one terminal, FIND_NODE result = the k closest responders with every closer known peer contacted, quorum honesty of GET_VALUE '
          '(local record counted once), failure only when every learned peer was tried and nothing was obtained, GET_PROVIDERS result = exhaustive '
-         'merge; a case is non-trivial when its trace has >= 30 numbers; distinct = distinct (case, trace) pairs',
- 'trusted_base': ['SHA-256 XOR distances enter the model as ranks: the harness sorts a pool of 16 random peers by their real distance to the real '
-                  'target key and maps case peer i to the pool peer of rank dist[i]; distinct peers are assumed to have distinct distances '
-                  '(dist_inj)',
+         'merge; a case is non-trivial when its trace has >= 30 numbers; distinct = distinct (case, trace) pairs; (4) ENGINE stream (cases starting '
+         'with 10, harness/src/c15_engine.rs, model coq/C15/Engine.v): the whole QueryEngine over all eight QueryType variants and every entry point '
+         '- (4a) the DISPATCH MATRIX, 8 query types x (5 KademliaMessage kinds via register_response + register_response_failure + '
+         'register_send_success + register_send_failure + register_peer_failure + next_peer_action) x 3 quorum variants = 240 deterministic '
+         'scenarios, each applying the entry point to an open request/target of a live query and again to the finished query, with a bystander '
+         'send-phase query that must stay untouched; (4b) N/3 random scenarios: up to 5 queries of random types started at random moments (ids '
+         'reused after the end and, rarely, while live), hand-over of a finished PUT_VALUE / ADD_PROVIDER lookup to its send phase under the same id '
+         'with the reported peers and quorum, resolutions in random order by every entry point, replies of every message kind, records that never '
+         'expire / are expired / expire in the future, caller lists with duplicates and with the local peer, noise for live, finished and unknown '
+         'ids, every fourth scenario on the logical clock (peer timeout 1/2/5). The query types, message kinds, action variants and quorum variants '
+         'are enumerated from the table tools/gen_c15_dispatch.py extracts from the Rust source on every check (a name the harness has no '
+         'constructor for invalidates the stream); all 11 QueryAction variants are decoded and their payload compared (target, key, record, '
+         'provider, quorum echoed; the bytes of every SendMessage are decoded: request kind and key); per event the action and the dump of ALL live '
+         'queries sorted by id (type tag + lookup state without the write-before-read counter | pending targets, n_succeeded, peers_to_succeed) are '
+         'compared; prop_ok judges per query id: lookups by the single-query oracle on the projected events (a reply of a kind the lookup does not '
+         'accept counts as a failure, a peer failure as a failure), send phases: terminal only when every target was reported on, success iff '
+         'acknowledged sends >= clamped quorum, never idle with nothing open; PutRecordToPeers: finished at its first poll with exactly the given '
+         'peers; nothing for an id that is not live',
+ 'trusted_base': ['SHA-256: distinct peers have distinct keys (the harness asserts that the 16 pool peers have pairwise distinct distances to both '
+                  'targets). Everything else about distances is proved: XOR distances of distinct keys are distinct (C15_xor_dist_inj; U256 xor / '
+                  'compare = N.lxor / < by C14_distance_compare_u256) and the model depends on the distance function only through the induced order, '
+                  'so the ranks the harness ships stand for the real distances (C15_rank_invariance, C15_monotone_rank_ok)',
                   'std::time::Instant in FindNodeContext: the bulk of the timed cases runs on a logical clock realised by the hook verif_age_pending '
                   '(subtracts a duration from the stored send instants); the real Instant arithmetic is additionally sampled by the small wall-clock '
                   'stream',
                   'the request timeout that fails an unanswered request lives in executor.rs / mod.rs (READ_TIMEOUT, WRITE_TIMEOUT -> '
                   "register_response_failure; C16's subject); in C15 it is the rule 'a request outstanding for more than T time units is failed' of "
-                  'the timed closed loop, emulated by the harness',
+                  'the timed closed loop, emulated by the harness (discharged on the other side by C16_executor_complete / C16_executor_bounded / '
+                  'C16_bounded_time)',
                   'several queries in one engine: the order in which QueryEngine::next_action polls its HashMap is an input of the model (the '
-                  "implementation's choice is recorded and validated), concurrent queries are exercised untimed and on one shared target key"],
+                  "implementation's choice is recorded and validated), concurrent queries are exercised untimed and on one shared target key; the "
+                  'engine stream reads the acting query off the action (every QueryAction carries its id) and proves the rest irrelevant '
+                  '(C15_eng_frame, C15_query_isolation)',
+                  'tools/gen_c15_dispatch.py (regex-level translator of the match arms of query/mod.rs, the enums of message.rs / handle.rs and the '
+                  'kad_message constructors): an arm it cannot read is reported as MISSING and fails the check'],
  'level_text': 'Proof: for every seed set, configuration and event history (any interleaving of next_action calls, responses with arbitrary peer '
                'lists, failures) the model keeps candidates/pending/queried pairwise disjoint and free of the local peer, sends to no peer twice and '
                'always to the closest uncontacted peer it knows, keeps at most alpha counting requests in flight (time-monotone histories), emits at '
@@ -50,17 +73,69 @@ ENTRY = {'coq_dir': 'C15',
                '/ no provider incl. locally known); GET_PROVIDERS reports after exhausting the learned peers the merge of all accepted and locally '
                'known provider entries: every provider once, strictly distance-sorted, addresses = union. Queries sharing an engine are isolated for '
                'every polling order (frame property, pr is write-before-read, state = own essential events). The model follows the code after the '
-               'fixes F-C15a/b/c and is tied to it by the per-event differential run.',
- 'level_note': 'Trusted: Coq kernel, ExtrOcamlBasic extraction, harness and hooks; distances enter as ranks (injective); the real Instant arithmetic '
-               'is only sampled (the logical clock is a hook); HashMap polling order of a shared engine is an input of the model; the request '
-               "timeout itself (executor.rs) is C16's subject and appears here as a rule of the timed loop. Not modelled: the PUT_VALUE / "
-               'ADD_PROVIDER sending phases (target_peers.rs, find_many_nodes.rs - C16); C15_lookup_interface states what the lookup phase hands to '
-               "them. The engine's own peer timeout never fails a request, it only stops counting it against alpha (so more than alpha requests can "
-               'be outstanding, at most alpha of them younger than the timeout).',
- 'assumptions': ['the local peer is not among the seed candidates (routing table never stores the local key)',
-                 'distinct peers have distinct distances to the target (dist_inj)',
+               'fixes F-C15a/b/c and is tied to it by the per-event differential run. ENGINE LEVEL (coq/C15/Engine.v, all eight query types, every '
+               'entry point, any history from the empty engine incl. restarts of live ids and events for unknown ids): the dispatch functions of the '
+               'model are proved equal to the tables extracted from the source (C15_dispatch_in_sync); every lookup entry is exactly a Model.v run '
+               'of its recorded events (C15_eng_lookup_is_model), so every single-query theorem holds inside a shared engine; between two starts of '
+               'an id at most one terminal action, none for an id that is not live, the id is gone afterwards (C15_eng_one_terminal, '
+               '_terminal_removes, _stale_ignored); calls for another query leave a query untouched (C15_eng_frame); every register_peer_failure '
+               'resolves the request/target in every query type, every register_response of ANY message kind and every response failure resolves a '
+               'lookup request, every send notification resolves a send-phase target (C15_eng_resolves); a lookup accepts exactly the reply kind of '
+               'its own request (C15_accepts_lookup) and sends exactly that request, to a peer that is neither local nor already contacted by that '
+               'query (C15_eng_send_kind, C15_eng_send_fresh); FindNodeQuerySucceeded / PutRecordToFoundNodes / AddProviderToFoundNodes hand over '
+               'the k closest responders of the recorded history with the original quorum, PutRecordToPeers exactly the given peers at its first '
+               'poll (C15_eng_handover, C15_eng_to_peers); a send phase yields its one terminal action exactly when every target was reported on, '
+               'success iff acknowledged sends >= clamped quorum (C15_eng_send_phase_terminates, _waits). DISTANCES: dist_inj is a theorem for the '
+               'XOR metric (C15_xor_dist_inj) and ranks are as good as real distances (C15_rank_invariance).',
+ 'level_note': 'Trusted: Coq kernel, ExtrOcamlBasic extraction, harness and hooks, the regex-level table translator; SHA-256 gives distinct keys to '
+               'distinct peers; the real Instant arithmetic is only sampled (the logical clock is a hook); HashMap polling order of a shared engine '
+               'is an input of the model (every order is covered by the isolation / frame theorems); the request timeout itself (executor.rs) is '
+               "C16's subject and appears here as a rule of the timed loop. Not modelled in C15: Kademlia::on_query_action (QueryAction -> "
+               'KademliaEvent) and the routing-table origin of the seeds - both are modelled and tied in C16 (C16_compose_refines, '
+               'C16_seeds_from_table). For the send phases the oracle recomputes the verdict from the notifications with the quorum clamp of '
+               "PutToTargetPeersContext::new (min(n, max(len, 1)); len counts duplicates of the caller's list, the target set does not) - the "
+               'stronger "success only if the quorum was really sent" is C16_quorum_honest. The engine\'s own peer timeout never fails a request, it '
+               'only stops counting it against alpha (so more than alpha requests can be outstanding, at most alpha of them younger than the '
+               'timeout).',
+ 'assumptions': ['the local peer is not among the seed candidates (discharged by composition in C16_seeds_from_table: seeds = RoutingTable::closest, '
+                 'C14_no_local)',
+                 'distinct peers have distinct SHA-256 keys (then dist_inj holds: C15_xor_dist_inj)',
                  'alpha >= 1 for progress and termination; times of next_action calls are non-decreasing for the parallelism bound',
                  'termination (a): fairness of the environment - after next_action returned nothing with a request outstanding, one outstanding '
                  'request is answered or failed before next_action is called again; termination (b): only that time advances and that a request '
                  'outstanding for more than T units is failed (nothing about the peers)',
-                 'HashMap/HashSet iteration order is not observable (dumps are sorted; the polled query is an input)']}
+                 'HashMap/HashSet iteration order is not observable (dumps are sorted; the polled query is an input)',
+                 'engine theorems: none - they quantify over all histories from the empty engine (start of any type with any id, any entry point for '
+                 'any id)'],
+ 'clause_map': [['never contacts the local node',
+                 'C15_never_twice_never_local, C15_disjoint, C15_send_closest (p <> local); engine level: C15_eng_send_fresh, C15_eng_send_kind, '
+                 'C15_eng_lookup_is_model (every engine send is a fresh Model.v send)',
+                 'streams 1-3 (oracle: ASend p with p = local rejected), engine stream 4 (same oracle per query id)'],
+                ['never contacts the same peer twice',
+                 'C15_never_twice_never_local (NoDup sends), C15_eng_send_fresh (engine level), C15_resolved_once, C15_peer_action (next_peer_action '
+                 'only repeats an outstanding request)',
+                 'streams 1-4 (oracle: o_sent), seeded/C15 (self-listing responder) caught'],
+                ['keeps at most the configured number of fresh unanswered requests in flight',
+                 'C15_parallelism, C15_send_gate, C15_pr_irrelevant',
+                 'streams 3a/3b/3c + timed engine scenarios (oracle: in_flight < alpha at every send); seeded/C15/c caught'],
+                ['terminates with exactly one terminal result for every pattern of replies, failures and reply orderings',
+                 'C15_one_terminal, C15_after_terminal, C15_progress, C15_measure, C15_productive_bound, C15_closed_loop, C15_timed_termination, '
+                 'C15_fair_env_exists; all query types / every entry point: C15_eng_one_terminal, C15_eng_terminal_removes, C15_eng_stale_ignored, '
+                 'C15_eng_resolves, C15_eng_send_phase_terminates, C15_eng_send_phase_waits, C15_eng_to_peers, C15_accepts_lookup, '
+                 'C15_dispatch_in_sync; multi-query fair termination of the real loop: C16_fair_terminates',
+                 'stream 2 (exhaustive reply orders x answered/failed), 3b (silent peers, (T+1)n bound), 4a dispatch matrix, 4b random engine '
+                 'scenarios (oracle: no idle poll with nothing open, nothing after the terminal action, nothing for dead ids)'],
+                ['on success the reported peers are peers that answered, sorted by distance to the target and at most the replication factor many',
+                 'C15_find_result, C15_find_topk, C15_closest_responsive, C15_kclosest_unique, C15_lookup_interface, C15_eng_handover; distance '
+                 'order: C15_rank_invariance, C15_xor_dist_inj',
+                 'streams 1, 2, 4 (oracle found_ok on FindNodeQuerySucceeded / PutRecordToFoundNodes / AddProviderToFoundNodes); seeded/C15/b '
+                 'caught'],
+                ['every peer the lookup learned of that is closer to the target than the furthest reported one has been contacted',
+                 'C15_find_result (4th conjunct), C15_closest_responsive, C15_send_closest',
+                 'streams 1, 2, 4 (oracle found_ok: o_known vs o_sent); seeded/C15/b caught'],
+                ['a value or provider lookup reports each item returned by a peer exactly once',
+                 'C15_record_once, C15_providers_result, C15_merge_spec, C15_providers_exhaustive',
+                 'streams 1, 2, 4 (oracle: APartial in o_got and not in o_emit; ARecDone needs every got pair emitted; provs_ok)'],
+                ['a value lookup stops issuing requests as soon as its quorum is met',
+                 'C15_quorum_stop, C15_record_quorum_honest, C15_failed_means_nothing',
+                 'streams 1, 2, 4 (oracle: ASend of a KRecord lookup requires needed > known + got); corpus witnesses of F-C15b']]}
